@@ -296,6 +296,20 @@ def subsets(rng, name, N, quick):
     cap = 300
     k = rng.randint(lo, min(N, cap))
     out.append(("sorted%d" % k, sorted(rng.sample(range(N), k)), False))
+    # siblings: selections of the same length with the same first and last position but another interior, asked right
+    # after one another in the same process (an answer that depends on anything but the positions themselves - a
+    # table keyed by length / end points, a result kept from the previous call - shows up here and nowhere else)
+    srt = out[-1][1]
+    pool = [p for p in range(srt[0] + 1, srt[-1]) if p not in set(srt)]
+    if len(srt) >= 3 and pool:
+        inner = list(srt[1:-1])
+        m = min(max(1, len(inner) // 2), len(pool))
+        for i_, p_ in zip(rng.sample(range(len(inner)), m), rng.sample(pool, m)):
+            inner[i_] = p_
+        out.append(("sibling%d" % len(srt), [srt[0]] + sorted(inner) + [srt[-1]], False))
+    if N >= 6:
+        out.append(("pairA", [0, 1, 2, N - 1], False))
+        out.append(("pairB", [0, N // 2, N - 2, N - 1], False))
     a = rng.randrange(0, N - 1)
     b = rng.randrange(a + 2, N + 1)
     step = rng.choice([1, 1, 2, 3, 7, 40])
@@ -350,7 +364,8 @@ def plan(ctx):
 
 def run(ctx):
     ctx.rule = ("instruments {avhrr, avhrr_gac, amsua, mhs, hirs4, atms, mwhs2, viirs, ascat, olci, slstr_nadir} x scan counts "
-                "(quick: 1, 2, 50 + 3 random; thorough: 1..50) x selections {full/default, random sorted subset, slice with step, "
+                "(quick: 1, 2, 50 + 3 random; thorough: 1..50) x selections {full/default, random sorted subset, its sibling (same length and "
+                "end points, other interior, asked next in the same process), fixed sibling pair, slice with step, "
                 "unsorted with repeats, edges, aapp every-40th, nadir pair, single}; full-width geometries of the wide "
                 "instruments (avhrr 2048, viirs 6400x32, olci, slstr) only for some scan counts; distinct = (instrument, scans, positions)")
     ctx.assumptions += [
